@@ -4281,7 +4281,9 @@ where
                 }
             })?;
 
-            // Replace empty TDS with simplex TDS (preserve kernel)
+            // Replace empty TDS with simplex TDS (preserve kernel); generation-keyed snapshots of
+            // the replaced structure must keep seeing a change.
+            new_tds.continue_generation_after(self.tds.generation());
             self.tds = new_tds;
 
             // Re-map vertex key to the rebuilt TDS
